@@ -286,6 +286,77 @@ def r4_bytes_read_reach_engine(chk):
         r.require(cfg, 2, "buffer fill sites")
 
 
+def rule_no_await_between_read_and_engine(chk, r):
+    """shared by C04 R5 and C01 R9: bytes that have left the transport sit in a local buffer of the read future; if that future suspends
+    again before the buffer is handed to the engine, the session loop's select! may drop it (another arm completes) and the bytes are gone"""
+    for cfg, prog in chk.configs():
+        n = 0
+        for e in prog.calls_to(r"ZmtpEngine::on_network_bytes$"):
+            body = e.body
+            if "::tests" in body.path or len(e.args) < 2 or not body.kind.startswith("coroutine"):
+                continue
+            buf = _engine_buffer(body, e)
+            if buf is None:
+                continue
+            engine_blocks = set(c.blk for c in body.calls if c.matches(r"ZmtpEngine::on_network_bytes$"))
+            awaits = body.awaits()
+            yields = set(body.yields())
+            for f in body.calls:
+                if f.blk in engine_blocks or f.target is None or is_plumbing_call(f):
+                    continue
+                if not any(_ref_root(body, a) == buf for a in f.args):
+                    continue
+                if f.name in ("freeze", "split", "len", "is_empty", "capacity"):
+                    continue
+                n += 1
+                key = "%s|no suspension between %s into the read buffer and the engine" % (short(body.path), f.name)
+                start = f.target
+                for aw in awaits:
+                    ac = body.awaited_call(aw)
+                    if ac is not None and ac.blk == f.blk and aw.ready_blk is not None:
+                        start = aw.ready_blk  # the read itself is awaited: bytes are in the buffer once it is Ready
+                reach = body.reachable([start], avoid_blocks=engine_blocks)
+                hit = sorted(y for y in yields if y in reach)
+                if hit:
+                    r.bad(cfg, key, where(body, hit[0]), "after %s(&mut buf, ..) has put bytes into the future's local buffer the future can suspend again (%s) before buf reaches on_network_bytes: this future is one arm of the session loop's select!, so when another arm wins the poll it is dropped together with the bytes already taken from the socket - messages are lost or the stream is cut mid-frame" % (f.name, body.term(hit[0])["sp"].split("/")[-1]))
+                else:
+                    r.ok(cfg, key, where(body, f.blk), "no .await between the fill and on_network_bytes")
+        r.require(cfg, 2, "buffer fill sites in read futures")
+
+
+def _engine_buffer(body, e):
+    o = e.args[1]
+    for _ in range(4):
+        org = body.value_origin(o)
+        if org[0] == "call" and org[1].name in ("freeze", "split", "split_to") and org[1].args:
+            a0 = org[1].args[0]
+            l = a0["p"]["l"] if a0["c"] in ("copy", "move") and not a0["p"]["pr"] else None
+            for _k in range(8):
+                if l is None:
+                    break
+                ds = body.whole_defs(l)
+                if len(ds) == 1 and ds[0][0] == "assign" and ds[0][3]["r"]["k"] == "use" and ds[0][3]["r"]["o"]["c"] in ("copy", "move") and not ds[0][3]["r"]["o"]["p"]["pr"]:
+                    l = ds[0][3]["r"]["o"]["p"]["l"]
+                    continue
+                break
+            if l is not None and body.locals[l].startswith("bytes::BytesMut"):
+                return l
+            rr = _ref_root(body, a0)
+            if rr is not None and body.locals[rr].startswith("bytes::BytesMut"):
+                return rr
+            o = a0
+            continue
+        break
+    return None
+
+
+def r5_no_await_before_handoff(chk):
+    r = chk.rule("R5", "a read future does not suspend while it holds bytes it has not handed over", "T10 no .await between take and hand-off",
+                 "in every coroutine that accumulates transport reads in a local buffer and feeds ZmtpEngine::on_network_bytes: once a read has put bytes into the buffer there is no "
+                 "suspension point before the hand-off (the awaited read itself excepted); otherwise what is delivered depends on which select! arm completes first")
+    rule_no_await_between_read_and_engine(chk, r)
+
+
 def is_plumbing_call(c):
     return c.name in ("deref", "deref_mut", "as_ref", "as_mut", "borrow", "borrow_mut", "into_future", "new_unchecked")
 
@@ -295,6 +366,7 @@ def run(chk):
     r1_no_consumer_discards(chk)
     r3_phase_handover_drains(chk)
     r4_bytes_read_reach_engine(chk)
+    r5_no_await_before_handoff(chk)
     from rules.common import rule_gate_closes_after_stage
     r2 = chk.rule("R2", "a greeting stage closes its re-entry gate only when the stage is finished", "T3 region + T4",
                   "in the ZMTP engine's byte-driven handlers, inside a region guarded by a gate on self.<field>, no assignment of that field is followed (within the region) by a need-more-bytes early return; otherwise the outcome depends on where a read boundary falls")
